@@ -1,6 +1,6 @@
 """Per-property check definitions: which theorem files are the obligations, and which
 correspondence parts tie the model to /repo."""
-import glob, json, os, re
+import glob, json, os, re, sys
 from vcheck import Part, harness, coq_eval, log, OUT, COQ
 
 QUICK = lambda ctx: ctx["tier"] != "thorough"
@@ -594,6 +594,8 @@ def engine_part(profile, nq, nt, steps, claim, nontrivial_keys, monitors=()):
             except TypeError:
                 mine = claim(m["kind"], m["mm"])
             if not mine:
+                if os.environ.get("VERIF_SHOW_UNCLAIMED"):
+                    sys.stderr.write("unclaimed by this property: %s %s (history %d step %d)\n" % (m["kind"], m["mm"][:300], m["h"], m["s"]))
                 continue
             tags = sorted(set(re.findall(r"M[A-Z][a-z]+(?: \"[^\"]*\")?", m["mm"])))
             key = "%s:%s" % (m["kind"], "+".join(t.replace('MNote ', '').replace('"', '') for t in tags))
@@ -980,9 +982,11 @@ def claim_c14(kind, mm):
         (k == "Publish" and "MDels" in mm) or (k in ("CreateSub", "UpdateSub") and "MSubs" in mm) or kind == "Job:PruneExpiredDeliveries" or \
         "d.expires" in mm or "s.expires" in mm or \
         (k in ("CreateSub", "UpdateSub") and "MTime" in mm) or \
+        (k in ("SeekTime", "SeekSnap") and "d.attempt_at" in mm) or \
         "new:d.attempt_at" in mm      # retention / expiry deadlines written by any step (seek revival included); the expiry base of a
                                       # (re)configured subscription (the harness reads the written time off expires_at - ttl); the first
-                                      # attempt time of a delivery created by the step (publish / forward time + injected delay)
+                                      # attempt time of a delivery created by the step (publish / forward time + injected delay);
+                                      # a seek never moves the due time of a delivery it does not revive (injected delay included)
 
 
 def claim_c08e(kind, mm, st):
@@ -1006,7 +1010,8 @@ def claim_c05(kind, mm):
     k = kind.split(":")[0]
     return (k == "Publish" and ("MDels" in mm or "MTime" in mm)) or (k == "Pull" and ("illegal-selection" in mm or "MResp" in mm)) or \
         (kind in ("Job:PruneCompletedDeliveries", "Job:PruneExpiredDeliveries") and ("MDels" in mm or "illegal-choice" in mm)) or \
-        "d.not_before" in mm      # predecessor links written by any step (dead-letter forwards included)
+        "d.not_before" in mm or "d.published" in mm   # predecessor links written by any step (dead-letter forwards included),
+                                                      # and the position a delivery takes in its subscription's order
 
 
 def claim_c16(kind, mm, st):
@@ -1036,7 +1041,8 @@ def claim_c12(kind, mm):
 
 
 def claim_c13(kind, mm):
-    return kind.split(":")[0] in ("SeekTime", "SeekSnap", "SeekNoTarget", "CreateSnap")
+    # (a seek to a time selects by the delivery's position in the subscription: whoever writes it, C13 relies on it)
+    return kind.split(":")[0] in ("SeekTime", "SeekSnap", "SeekNoTarget", "CreateSnap") or "d.published" in mm
 
 
 BUS_ASSUME = ["SQLite with immediate transactions: serialisable, FK and unique constraints enforced (modelled)",
@@ -1049,34 +1055,34 @@ T_FLOAT = "float assumption: Go's float64 evaluation of min*1.1^n stays within 2
 CHECKS = {
     "C01": dict(
         props=["C01", "Tie"],
-        parts=[engine_part("delivery", 36, 600, 45, claim_c01, ["deliveries_created", "pull_nonempty", "redelivery", "nack_rescheduled"]),
+        parts=[engine_part("delivery", 40, 600, 45, claim_c01, ["deliveries_created", "pull_nonempty", "redelivery", "nack_rescheduled"]),
                stream_part(STREAM_C01)],
         rule="[+ stream part: a message nacked on a stream (Nack list or zero deadline, also through the StreamingPull RPC) must not end up acknowledged] generated histories (profile delivery: publish/pull/ack/modack/nack/seek/jobs/clock jumps) against the production gRPC server; every step is checked "
              "locally: model step from the implementation's pre-state vs response and full five-table post-state; non-trivial = deliveries created, non-empty pulls, redeliveries",
         assumptions=BUS_ASSUME),
     "C02": dict(
         props=["C02", "Tie"],
-        parts=[engine_part("general", 36, 600, 45, claim_c02, ["pull_nonempty", "publish_ok", "publish_batch"]), timers_part(TIMERS_C02)],
+        parts=[engine_part("general", 40, 600, 45, claim_c02, ["pull_nonempty", "publish_ok", "publish_batch"]), timers_part(TIMERS_C02)],
         rule="engine profile general over several topics and subscriptions sharing topics; owned projection: Pull responses (ack id, message id, payload as canonical JSON value, "
              "attributes, ordering key, publish time, attempt) and the messages table; payloads cover whitespace, unicode, HTML-sensitive characters, big/exponent numbers, nesting, non-JSON, empty",
         assumptions=BUS_ASSUME + ["payloads are compared by JSON value (the code stores the compacted, HTML-escaped form)"]),
     "C04": dict(
         props=["C04", "C04backoff", "Tie"],
-        parts=[engine_part("delivery", 36, 600, 45, claim_c04, ["redelivery", "modack_effective", "nack_rescheduled", "pull_nonempty"], monitors=("handed-out-before-due",)), part_backoff,
+        parts=[engine_part("delivery", 40, 600, 45, claim_c04, ["redelivery", "modack_effective", "nack_rescheduled", "pull_nonempty"], monitors=("handed-out-before-due",)), part_backoff,
                timers_part(TIMERS_C04), stream_part(STREAM_C04)],
         rule="[+ real-time part: a pull already waiting returns a message when its 330 ms retry deadline passes while another message's deadline was extended to 600 s] engine profile delivery (retry policies absent/min/max/both from 200 ms to 100 s, clock jumps to lease deadline -/+ margin) + grid of NextDelayFor over policies x attempts; "
              "non-trivial = redeliveries, effective deadline changes, nacks",
         assumptions=BUS_ASSUME + [T_FLOAT, "concurrent pullers: interleavings are at transaction granularity (serialisable database), covered by the history theorems; not exhibited on the code here"]),
     "C06": dict(
         props=["C06", "Tie"],
-        parts=[engine_part("delivery", 36, 600, 45, claim_c06, ["pull_deadlettered", "nack_deadlettered", "job_effective:DeadLetterSweep"], monitors=("attempts-exceeded",)),
+        parts=[engine_part("delivery", 40, 600, 45, claim_c06, ["pull_deadlettered", "nack_deadlettered", "job_effective:DeadLetterSweep"], monitors=("attempts-exceeded",)),
                services_part(("DeadLetterSweep",), False), part_dead_letter_faults],
         rule="[+ background services part: the dead-letter service's first run = one model sweep step] engine profile delivery with dead-letter policies N in 1..4 and default, topologies from generated topics (no subscriber, several, filtered, ordered, deleted topic, self loop); "
              "non-trivial = deliveries dead-lettered by pull / nack / sweep",
         assumptions=BUS_ASSUME),
     "C05": dict(
         props=["C05", "Tie"],
-        parts=[engine_part("delivery", 36, 600, 45, claim_c05, ["pull_keyed", "publish_batch"], monitors=("overtake", "seek-revival-overtake")),
+        parts=[engine_part("delivery", 40, 600, 45, claim_c05, ["pull_keyed", "publish_batch"], monitors=("overtake", "seek-revival-overtake")),
                engine_part("seek", 16, 300, 45, claim_c05, ["pull_keyed"], monitors=("overtake", "seek-revival-overtake")),
                part_ordered_publish_faults, part_c05_seek_revival],
         rule="[+ ordering monitor: the property evaluated DIRECTLY on every observed pull of the delivery and seek profiles (a keyed message handed out while an earlier same-key one is outstanding), under the client discipline of the theorem] [+ a Publish of three same-key messages to an ordered subscription behind an outstanding same-key message, with each of its statements failing in turn: the publish fails as a whole or the chain is as the model says; written times of a batch must increase strictly (hypothesis quiet of the theorem)] engine profile delivery: 40% ordered subscriptions, keys k1 k1 k2 k3 and un-keyed messages, single and batched publishes, pulls of size 1..100, acks in any order, nacks, "
@@ -1104,7 +1110,7 @@ CHECKS = {
         assumptions=["partial: interleavings inside atomic sections and the PostgreSQL LISTEN/NOTIFY relay are not exhibited; 'promptly' is a 2 s bound with all timers >= 10 s"]),
     "C14": dict(
         props=["C14", "Tie"],
-        parts=[engine_part("delivery", 36, 600, 45, claim_c14, ["job_effective:ExpireSubs", "job_effective:PruneExpiredDeliveries", "pull_empty", "pull_nonempty"], monitors=("handed-out-after-retention",)),
+        parts=[engine_part("delivery", 40, 600, 45, claim_c14, ["job_effective:ExpireSubs", "job_effective:PruneExpiredDeliveries", "pull_empty", "pull_nonempty"], monitors=("handed-out-after-retention",)),
                services_part(("ExpireSubs", "PruneExpiredDeliveries"), False), timers_part(TIMERS_C14)],
         rule="[+ background services part: the expiry service on a prepared state (a subscription 23 min from expiring must survive); real-time part: a pull waiting across the end of a message's retention must not hand it out, delivery delay honoured by a waiting pull] engine profile delivery: retention 20 s .. 1 h and default, ttl 45 s .. 24 h and default, injected delays 0/5/40 s; the clock jumps to each lease / retention / subscription "
              "deadline -1.5 s or +1.5 s ('clearly before or clearly after'); steps whose call spans a deadline are skipped and counted; owned projection: expiry sweep, pulls (heartbeat), "
@@ -1120,7 +1126,7 @@ CHECKS = {
                                   "PostgreSQL itself is not exercised (no PostgreSQL offline); the PostgreSQL interval parser's sign/overflow behaviour is stated as refuted lemmas (F12), unreachable on SQLite"]),
     "C16": dict(
         props=["C16", "Tie"],
-        parts=[part_c16, engine_part("general", 36, 600, 45, claim_c16, ["publish_ok"])],
+        parts=[part_c16, engine_part("general", 40, 600, 45, claim_c16, ["publish_ok"])],
         rule="boundary-domain requests (names valid/wrong kind/empty/unknown/deleted, int32 min,-1,0,1,1000,max, durations absent/negative/zero/huge/invalid, nested messages absent/empty, "
              "ack ids live/stale/foreign/garbage/unknown/mixed/duplicate, masks known/unknown/repeated/empty, payloads JSON/non-JSON/empty) on every implemented RPC against a child-process server; "
              "one factor at a time plus all pairs of the numeric/nested CreateSubscription factors; outcome PANIC = process exit; error answers must leave the dump unchanged",
@@ -1128,7 +1134,7 @@ CHECKS = {
         assumptions=["partial: the handler model covers the validation logic; the enumeration is pairwise, not the full cross product"]),
     "C15": dict(
         props=["C15", "Tie"],
-        parts=[part_c15_meta, services_part(PRUNE_JOBS, False), timers_part(TIMERS_C15), engine_part("prune", 36, 600, 45, claim_c15,
+        parts=[part_c15_meta, services_part(PRUNE_JOBS, False), timers_part(TIMERS_C15), engine_part("prune", 40, 600, 45, claim_c15,
                                           ["job_effective:PruneCompletedDeliveries", "job_effective:PruneExpiredDeliveries", "job_effective:PruneCompletedMessages",
                                            "job_effective:PruneDeletedSubDeliveries", "job_effective:PruneDeletedSubs", "job_effective:PruneDeletedTopics"])],
         rule="(1) metamorphic pairs on the real code: the same generated client history (publish / pull / ack / nack / modack / purge-seek / snapshots / deletes / expiry and dead-letter sweeps / "
@@ -1170,7 +1176,7 @@ CHECKS = {
                      "concurrency of the streamer and the Go scheduler are exercised, not exhausted (the bound is proved on the window model and checked on the runs)"]),
     "C03": dict(
         props=["C03", "Tie"],
-        parts=[engine_part("delivery", 36, 600, 45, claim_c03, ["ack_effective", "ack_noop", "modack_effective", "nack_rescheduled"], monitors=("acked-redelivered",)),
+        parts=[engine_part("delivery", 40, 600, 45, claim_c03, ["ack_effective", "ack_noop", "modack_effective", "nack_rescheduled"], monitors=("acked-redelivered",)),
                stream_part(STREAM_C03),
                engine_part(("bulk520", "bulk1100"), 1, 1, 30, claim_c03, ["ack_effective"])],
         parallel=True,
@@ -1201,7 +1207,7 @@ CHECKS = {
         assumptions=["interleavings inside an atomic operation are not exhibited on the code; prune() is invisible (skips only exhausted entries)"]),
     "C07": dict(
         props=["C07", "Tie"],
-        parts=[part_filter_c07, engine_part("general", 36, 600, 45, claim_c07, ["publish_ok", "deliveries_created"])],
+        parts=[part_filter_c07, engine_part("general", 40, 600, 45, claim_c07, ["publish_ok", "deliveries_created"])],
         rule="grammar-generated, mutated, fuzzed and bounded-exhaustive filters x attribute maps: Go ParseString+Evaluate vs model parse+eval and vs the documented semantics; "
              "routing: engine profile general (30% filtered subscriptions, filter updates and re-creation under the same name via a scenario template), owned projection: which subscriptions "
              "get a delivery at Publish / dead-letter forward; non-trivial = the filter parsed, deliveries created",
